@@ -801,12 +801,27 @@ class BeliefPropagation(Inference):
             marginal_2 = getattr(self.clique_beliefs[edge[1]], operation)(
                 list(frozenset(edge[1]) - sepset), inplace=False
             )
-            if (
-                marginal_1 != marginal_2
-                or marginal_1 != self.sepset_beliefs[sepset_key]
+            if not (
+                self._beliefs_agree(marginal_1, marginal_2)
+                and self._beliefs_agree(marginal_1, self.sepset_beliefs[sepset_key])
             ):
                 return False
         return True
+
+    @staticmethod
+    def _beliefs_agree(phi1, phi2, rtol=1e-9):
+        """
+        Scale-free comparison of two beliefs over the same scope: the largest
+        difference has to be negligible relative to the largest belief value.
+        (`DiscreteFactor.__eq__` uses an absolute tolerance of 1e-8 and a relative
+        one of 1e-5, which declares un-calibrated trees with small potentials
+        calibrated.)
+        """
+        if phi2 is None:
+            return False
+        scale = abs(phi1.values).max()
+        difference = abs((phi1 + (-1.0 * phi2)).values).max()
+        return bool(difference <= rtol * scale)
 
     def _calibrate_junction_tree(self, operation):
         """
